@@ -8,7 +8,8 @@ PID = 'C02'
 def main(tier, seed, args):
     rep = Report(PID, tier, seed, 'model_checking')
     c = ctx('on')
-    rep.bounds = {'htlc_sets': '1 set; 2 consecutive sets', 'parts': '1 per pay command + 1 earlier', 'crash': 1,
+    rep.bounds = {'htlc_sets': '1 set; 2 consecutive sets', 'parts': '1 per pay command + 1 earlier (restart configuration: 2 earlier parts, codes 203/204)', 'crash': 1,
+                  'pay_outcomes': 'complete, pending, failed, failed with a non-empty / empty partial-completion warning, RPC error 210, RPC error without a node error code',
                   'stored_history': ['absent', 'Pending (part pending/complete/failed)', 'Succeeded'],
                   'faults': '1 RPC fault (Rpc error or transport error) on listsendpays / waitsendpay / listdatastore / datastore',
                   'outside': 'more sets/parts/crashes/faults'}
